@@ -21,7 +21,7 @@ from ..facts import AnchorMissing
 from .common import (RT, where, short, fn_key, ok_blocks, classify_switch, only_via_edge, recv_fields, callers_of)
 from . import ll
 
-CRATES = ["parol_runtime.lib"]
+CRATES = ["parol_runtime.lib", "parol.lib"]
 
 META = {
     "explanation": "Decides the shift/reduce driver discipline on MIR: success only via Accept, no continuation after a "
@@ -230,4 +230,8 @@ def check(ctx):
         ctx.check(b.root_fn(facts).path == LRP + "call_action", "R03.4", "%s|calls-semantic-action" % fn_key(b, facts),
                   "LR semantic actions are called from call_action only",
                   "the LR parser calls a semantic action from %s" % short(b.path), where(b, c.line))
-    ctx.assume("R03.5: LALR(1) table construction receives augmented grammars (decided by check C12)")
+    # ---------------------------------------------------------------- R03.5 = C12's rules, re-evaluated here:
+    # without start-symbol isolation lalry either panics (table construction crashes) or produces a table whose
+    # Accept action is shared with nested occurrences of the start symbol (non-sentences are accepted)
+    from . import c12
+    c12.check(ctx)
